@@ -282,4 +282,6 @@ func init() {
 		"	i.internal.SetBounds(tr)\n", "	i.internal.SetBounds(i.domainIteratorConfig().Bounds)\n", "C10.R3.bounds")
 	mut("C20", "the relay queues connect requests instead of meeting them", "cesium/relay.go",
 		"		cfg.SlowConsumerTimeout,\n		ins,\n	)", "		cfg.SlowConsumerTimeout,\n		ins,\n		16,\n	)", "C20.R8.rendezvous")
+	mut("C02", "a failed file ends the GC pass before the index is persisted", "cesium/internal/domain/delete.go",
+		"		if err = db.garbageCollectFile(fileKey, s.Size()); err != nil {\n			gcErr = err\n			break\n		}", "		if err = db.garbageCollectFile(fileKey, s.Size()); err != nil {\n			return span.Error(err)\n		}", "C02.R5.gc")
 }
